@@ -585,8 +585,9 @@ func Scopes(quick bool) []Scope {
 			a := wm.NP{NS: "ns1", Name: na, PodSel: *ml("app", "a"), Types: []string{"Ingress", "Egress"}, Ingress: []wm.NPRule{reduced[r1]}, Egress: []wm.NPRule{reduced[r1]}}
 			b := wm.NP{NS: "ns1", Name: nb, PodSel: wm.Sel{}, Types: []string{"Ingress", "Egress"}, Ingress: []wm.NPRule{reduced[r2]}, Egress: []wm.NPRule{reduced[r2]}}
 			w.NPs = []wm.NP{a, b}
-			// a twin of w1: another workload of the same namespace with exactly the same pod labels (blue / green), other ports
-			w.WLs = append(w.WLs, wm.Workload{Kind: "Deployment", NS: "ns1", Name: "w1-green", Labels: map[string]string{"app": "a"}, Ports: []wm.CPort{{Name: "web", Num: 8001}, {Name: "http", Num: 81}}, Replicas: 1})
+			// a twin of w1: another workload of the same namespace with exactly the same pod labels (blue / green), other ports;
+			// it is a real workload that happens to be named like the tool's {ingress-controller} pseudo peer
+			w.WLs = append(w.WLs, wm.Workload{Kind: "Deployment", NS: "ns1", Name: "ingress-controller", Labels: map[string]string{"app": "a"}, Ports: []wm.CPort{{Name: "web", Num: 8001}, {Name: "http", Num: 81}}, Replicas: 1})
 			return w
 		}},
 		{"one-policy/two-rules", func(c *fw.Ctx) *wm.World {
